@@ -20,10 +20,10 @@ scalar Date
 enum Color { RED GREEN }
 input Filter { nameLike: String tags: [String!] color: Color }
 interface Node { id: ID! }
-type Item implements Node { id: ID! displayName: String color: Color owner: Person related(firstN: Int, filter: Filter): [Item!]! createdAt: Date }
+type Item implements Node { id: ID! displayName: String color: Color owner: Person related(firstN: Int, filter: Filter): [Item!]! createdAt: Date thumb(size: Int, format: String): String }
 type Person implements Node { id: ID! fullName: String items(ids: [ID!]!, since: Date): [Item!] avatar(size: Int!, format: String): String }
 union SearchResult = Item | Person
-type Query { item(id: ID!): Item items(ids: [ID!]!, colors: [Color], filter: Filter): [Item!]! search(text: String!, maxHits: Int = 10): [SearchResult!]! node(id: ID!): Node me: Person version: String }
+type Query { item(id: ID!): Item items(ids: [ID!]!, colors: [Color], filter: Filter): [Item!]! search(text: String!, maxHits: Int = 10): [SearchResult!]! node(id: ID!): Node maybe(id: ID): Item me: Person version: String }
 type Mutation { renameItem(itemId: ID!, newName: String!): Item }
 """
 SHARED = {"Item.id", "Item.displayName", "Item.createdAt", "Person.id", "Person.fullName", "Node.id"}
